@@ -43,6 +43,10 @@ def run(rep: Report, prog: Program, tier: str) -> None:
         "showing each packed field fits its struct format."
     )
     run_rtcp = prog.func("rtcrtpreceiver.RTCRtpReceiver._run_rtcp")
+    # the report blocks may be built by a helper of the receiver class: follow the construction, whatever the method is called
+    _builders = [fi for fi in run_rtcp.cls.methods.values() if any(isinstance(n, ast.Call) and unparse(n.func) == "RtcpReceiverInfo" for n in walk_no_nested(fi.node))]
+    if len(_builders) == 1:
+        run_rtcp = _builders[0]
     add = prog.func(SS + ".add")
     mod = prog.module("rtcrtpreceiver")
 
